@@ -35,7 +35,18 @@ class Worker(threading.Thread):
 
     def start_proc(self):
         self.proc = subprocess.Popen([ENGINE, "-jobs", "-", "-repo", REPO, "-harness", HARNESS], stdin=subprocess.PIPE,
-                                     stdout=subprocess.PIPE, stderr=subprocess.DEVNULL, text=True, env=GOENV, bufsize=1)
+                                     stdout=subprocess.PIPE, stderr=subprocess.DEVNULL, text=True, env=GOENV, bufsize=1,
+                                     start_new_session=True)
+
+    def kill_proc(self):
+        """Kills the engine together with its solver processes (own process group)."""
+        try:
+            os.killpg(self.proc.pid, 9)
+        except Exception:
+            try:
+                self.proc.kill()
+            except Exception:
+                pass
 
     def run(self):
         while True:
@@ -53,6 +64,13 @@ class Worker(threading.Thread):
                 break
             if self.proc is None or self.proc.poll() is not None:
                 self.start_proc()
+            # watchdog: the engine checks its wall bound between instructions; a solver that does not come
+            # back from one query (its soft time limit is not always honoured) is ended from outside
+            limit = job.get("wall_ms", 240000) / 1000.0 + 180
+            killed = []
+            wd = threading.Timer(limit, lambda: (killed.append(1), self.kill_proc()))
+            wd.daemon = True
+            wd.start()
             try:
                 self.proc.stdin.write(json.dumps(job) + "\n")
                 self.proc.stdin.flush()
@@ -61,13 +79,16 @@ class Worker(threading.Thread):
                     raise IOError("engine exited")
                 res = json.loads(line)
             except Exception as e:  # engine crash: report as unsupported, restart
-                res = {"job": dict(job), "status": "unsupported", "unsupported": "engine process failed: %r" % (e,), "paths": 0, "steps": 0,
-                       "violations": [], "queries": 0, "solver_ms": 0, "wall_ms": 0, "funcs": []}
-                try:
-                    self.proc.kill()
-                except Exception:
-                    pass
+                if killed:
+                    res = {"job": dict(job), "status": "undecided", "inconclusive": ["no answer within the job's wall bound plus 180 s (a solver query did not return); engine process ended"],
+                           "paths": 0, "steps": 0, "violations": [], "queries": 0, "solver_ms": 0, "wall_ms": int(limit * 1000), "funcs": []}
+                else:
+                    res = {"job": dict(job), "status": "unsupported", "unsupported": "engine process failed: %r" % (e,), "paths": 0, "steps": 0,
+                           "violations": [], "queries": 0, "solver_ms": 0, "wall_ms": 0, "funcs": []}
+                self.kill_proc()
                 self.proc = None
+            finally:
+                wd.cancel()
             with self.lock:
                 self.results.append(res)
                 if PROGRESS:
